@@ -166,7 +166,7 @@ def check_c01(ctx):
 
 
 SUBSETS = ['{"A", "M", "D"}', '{"A", "M"}', '{"A", "D"}', '{"M", "D"}', '{"A"}', '{"M"}', '{"D"}', '{}']
-FILTERS = [("object", "p"), ("nested", "p"), ("none", "whole"), ("string", "p"), ("array", "p"), ("number", "p"), ("bool", "p"), ("const", "const")]
+FILTERS = [("object", "p"), ("nested", "p"), ("wide", "p"), ("func", "p"), ("none", "whole"), ("string", "p"), ("array", "p"), ("number", "p"), ("bool", "p"), ("const", "const")]
 
 
 def check_c08(ctx):
@@ -176,7 +176,7 @@ def check_c08(ctx):
     binary = vlib.go_build(ctx, "ki")
     cases = []
     behs = gen(ctx, ctx.pick(300, 3000), 90, {}, cfg="Sim_c08.cfg")
-    byfilter = {"p": ["object", "nested", "string", "array", "number", "bool"], "whole": ["none"], "const": ["const"]}
+    byfilter = {"p": ["object", "wide", "func", "nested", "string", "array", "number", "bool"], "whole": ["none"], "const": ["const"]}
     for i, b in enumerate(behs):
         mode = b[0]["cfgv"]["pm"]
         fl = byfilter[mode]
@@ -184,7 +184,7 @@ def check_c08(ctx):
         for fname in sorted({fl[0], fl[i % len(fl)]}):
             cases.append({"filter": fname, "proj": mode, "eventTypes": event_types(b), "steps": b})
     stats = replay(ctx, binary, cases, ("C08/",))
-    ctx.log("replayed %d per-object histories on the real informer (8 filters x 8 event-type subsets): %s" % (len(cases), stats))
+    ctx.log("replayed %d per-object histories on the real informer (10 projections x 8 event-type subsets): %s" % (len(cases), stats))
     ctx.cov["traces_validated_against_impl"] = len(cases)
     ctx.cov["evaluations"] = len(cases)
     ctx.cov["distinct_nontrivial"] = len({c["filter"] + json.dumps([s["act"] for s in c["steps"] if s["act"][0] in ("Change", "Resync", "HW_UpdateCache")]) for c in cases})
@@ -215,8 +215,8 @@ MANIFEST = {
         design="5/C01"),
     "C08": dict(
         text="spec/KubeInformer's fire decision (FireOnlyIf / FireIf / CacheFollows) checked exhaustively by TLC over projection modes and all subsets of "
-             "event types; per-object histories with re-deliveries are replayed on the real informer for a catalogue of 8 jq filters "
-             "(object, nested, none, string, array, number, boolean, constant results).",
+             "event types; per-object histories with re-deliveries are replayed on the real informer for a catalogue of 10 projections "
+             "(jq: object, several-key object with nested maps, nested, none, string, array, number, boolean, constant results; a Go FilterFunc).",
         note="The jq semantics come from gojq (trusted); objects are constructed so that the filter result differs exactly when the abstract projection differs.",
         technique="TLA+ spec + TLC exhaustive check; replay of TLC-generated histories on the real informer",
         design="5/C08"),
